@@ -528,6 +528,8 @@ class Verifier:
             g = goal.t if isinstance(goal, SBool) else goal
         labs = [l for l, _ in ctx.labels]
         status, model, core = "undecided", None, []
+        if getattr(ctx, "after_loop_cut", False):
+            extra = dict(extra or {}, after_loop_cut=True)
 
         def attempt(transform, timeout_ms, seed=0, guarded=True):
             s = z3.Solver()
@@ -641,7 +643,21 @@ class Verifier:
                     d["present"] = {k: z3.is_true(m.eval(p, model_completion=True)) for k, p in pres.items()}
             return d
         if isinstance(v, SEntropy):
-            return {"entropy": v.stream}
+            # the blocks the model assigns to the stream: ent(stream, k, n) terms created on this path
+            calls = {}
+            for item in sym.FACTS.items("ent"):
+                try:
+                    t = item[0]
+                    st, k, n = [m.eval(c, model_completion=True) for c in t.children()]
+                    if int(str(st)) != v.stream:
+                        continue
+                    l = int(str(m.eval(sym.blen(t), model_completion=True)))
+                    x = int(str(m.eval(sym.bval(t), model_completion=True)))
+                    if 0 <= l <= 4096 and 0 <= x < 256 ** l:
+                        calls[int(str(k))] = x.to_bytes(l, "big").hex()
+                except Exception:
+                    pass
+            return {"entropy": v.stream, "calls": calls}
         if isinstance(v, SOpaque):
             return {"opaque": v.kind, "data": self.model_value(ip, m, v.data, depth + 1) if isinstance(v.data, (dict, list, tuple)) else None}
         if isinstance(v, SPoint):
@@ -684,6 +700,7 @@ class Verifier:
     def loop_cut(self, ip, st, frame, spec, kind, start=None):
         """Cut the loop at its invariant (DESIGN 2.4)."""
         ctx = ip.ctx
+        ctx.after_loop_cut = True     # every later obligation of this path is relative to the invariant (a proof device)
         fr_env = lambda: Frame(None, frame.module, dict(frame.env))
         target = None
         if kind == "count":
